@@ -139,6 +139,17 @@ func init() {
 		i.ps.assume(i.tb.Eq(g, i.toTerm(args[1])))
 		return nil
 	})
+	reg("OpaqueBytes", func(fr *frame, args []value) value {
+		if _, ok := args[0].(*Term); !ok {
+			n := int(asInt64(args[0]))
+			s := make([]value, n)
+			for k := range s {
+				s[k] = uint8(0)
+			}
+			return s
+		}
+		return &opaqueSlice{n: args[0]}
+	})
 	reg("Symbolic", func(fr *frame, args []value) value { return fr.i.sh.opts.pin == nil })
 }
 
